@@ -731,3 +731,13 @@ Theorem C15_source_sex_ratios : forall gstat hap build t d st,
              (segment_mean use (filter (chr_y_filter t build) t)) in
   s_x_ratio st == fst r /\ Proofs.FnCnaryRatios.opt_eqQ (s_y_ratio st) (snd r).
 Proof. exact Proofs.FnCnaryRatios.fn_sex_ratios_eq. Qed.
+
+From CNV Require Proofs.FnCnarySelection.
+
+(* center_all's selection `(self.drop_low_coverage(..) if skip_low else self).autosomes(diploid_parx_genome=..)`, tables as
+   ids (0 the table, 1 without its low bins, i + 2 the autosomes of table i): skip_low picks the table, then the autosomes *)
+Theorem C15_source_center_selection : forall skip_low build t build_id,
+  center_selection skip_low build t =
+  Proofs.FnCnarySelection.table_of t build
+    (Gen.FnCnarySelection.fn_center_selection 0 1 skip_low build_id (fun id _ => (id + 2)%Z)).
+Proof. exact Proofs.FnCnarySelection.fn_center_selection_eq. Qed.
